@@ -83,6 +83,11 @@ CHECKS = {
    text="Exploration: millions of arbitrary SSA / register circuit values and single-field mutations of valid circuits (forward/self/out-of-range references, empty parties, input instructions naming any party/index, register count 0); compiler and converter products must validate.",
    note="Inputs are of the declared shape; declared sizes are kept small enough to materialise.",
    design="DESIGN.md section 2 / C16"),
+ "C07": dict(
+   technique="fault-injection / totality monitor: enumerated and random perturbations of real programs and literal strings are pushed through the real scan / parse / type-check / compile (and Literal::parse) in isolated worker processes under a parent-side watchdog; panics, aborts, stack overflows, hangs, empty error lists, malformed error locations and prettify failures are observed per stage",
+   text="Exploration with enumerated sub-spaces: every character prefix, every token prefix and every single-token deletion / duplication / adjacent swap of every corpus program (examples, doc snippets, programs quoted in the tests; extracted from the working tree at run time) - completeness is measured by the run; substitution of each token by each token of a 111-token alphabet (all positions of programs <= 400 tokens in the thorough tier, sampled in quick), insertions, two-edit mutants, generated programs with token edits and rule-breaking edits, token soup (pure and skeleton-guided), random bytes / unicode, comment and line-end insertions, nesting towers of 48 shapes up to depth 256, and the same operators on literal strings for the parameter types of corpus programs. ~1.5e7 inputs per quick run.",
+   note="Termination is decided as bounded progress (10 s per input, confirmed alone with 60 s before a hang in scan / parse / check is reported). Time-outs and memory exhaustion (2 GiB address space, capacity overflow) in the compile stage are not judged: a mutant may describe an enormous circuit. Worker front-end thread: 8 MiB stack; towers <= depth 256. Known finding KF-C07-1 keyed on cause.",
+   design="DESIGN.md section 2 / C07"),
 }
 NOT_APPLICABLE = {}
 
